@@ -101,6 +101,15 @@ def run(ck, prog, ctx):
         ck.ob("TABLE", "slot/" + k, v == ref, "reserved placeholder count: %s = %s, Arena::default pushes %s placeholder(s)" % (k, v, ref))
     ck.floor("TABLE", "slot constants", len([v for v in consts.values() if v is not None]), 5)
 
+    ol = prog.body("ontology::Ontology::len")
+    if ol is not None:
+        ok = any(t.callee.res == ARENA + "::len" for _, t in ol.calls())
+        ck.ob("TABLE", "ontology/len", ok, "Ontology::len %s" % ("is the arena's len()" if ok else "does not use Arena::len"), where=ol.where())
+    oi = prog.body("ontology::Ontology::iter")
+    if oi is not None:
+        ok = any(t.callee.res == ARENA + "::iter" for _, t in oi.calls())
+        ck.ob("TABLE", "ontology/iter", ok, "Ontology::iter %s" % ("iterates the arena's ids" if ok else "does not use Arena::iter"), where=oi.where())
+
     # ------------------------------------------------------------------ DOM: zero tests in get / get_mut / insert
     def is_slot(atoms):
         return "ids" in field_names(atoms, "Arena")
